@@ -424,6 +424,10 @@ func (u *Unit) solveObl(o *Obl, outDir string, timeoutS int, seed int, axioms []
 	if st == "sat" || st == "unsat" {
 		return &OblResult{Obl: o, Status: st, Solver: solvers[0].name, Seconds: total, Output: out, File: file, Model: modelOf(st, out)}
 	}
+	if st == "error" && strings.Contains(out, "(error \"line") {
+		// z3 rejected the query text: an engine bug, never to be mistaken for "undecided"
+		return &OblResult{Obl: o, Status: "error", Solver: solvers[0].name, Seconds: total, Output: out, File: file}
+	}
 	if o.Cover {
 		// vacuity checks only fail on "unsat"; an undecided cover is not worth a solver race
 		if st != "unknown" && st != "timeout" {
